@@ -27,7 +27,7 @@ ASSUMPTIONS = [
     'hierarchies CPython rejects and root modules named like summary pages are outside the alphabet',
 ]
 FLOOR = {'quick': 300, 'thorough': 1500}
-SPACE = {'quick': 'histories <= 3 over 35 events x 2 schedules', 'thorough': 'histories <= 4 over 35 events x 2 schedules'}
+SPACE = {'quick': 'histories <= 3 over 37 events x 2 schedules', 'thorough': 'histories <= 4 over 37 events x 2 schedules'}
 
 EVENTS: Dict[str, List[Tuple[str, str]]] = {
     'defC':   [('a', 'class X:\n    def m(self): pass\n')],
@@ -70,6 +70,8 @@ EVENTS: Dict[str, List[Tuple[str, str]]] = {
     # a module-level function wearing a method decorator; a re-export that lands ON a local definition of the importing module (which may itself be moved later)
     'mod-decorated-fn': [('a', '@staticmethod\ndef smf(): pass\n@classmethod\ndef cmf(cls): pass\nclass Hd:\n    @staticmethod\n    def sm(): pass\n')],
     'move-onto-local': [('p', 'class X:\n    def inp(self): pass\n'), ('a', 'from p import X\n__all__ = ["X"]\n')],
+    'dup-root-module': [('r', 'class R1:\n    def m(self): pass\n'), ('r#2', 'class R2:\n    def n(self): pass\nfrom p.a import X as RX\n')],
+    'dup-root-package': [('rp/x', 'class PX1:\n    def m(self): pass\n'), ('rp#2/x', 'class PX2:\n    def n(self): pass\n')],
     'rename-module': [('p', 'from . import a as amod\n__all__ = ["amod"]\n')],
     'zopeimp': [('b', 'from zope.interface import implementer\nfrom .a import IY\nfrom p import IY as IYY\n@implementer(IY)\nclass U1: pass\n@implementer(IYY)\nclass U2: pass\n')],
 }
@@ -79,7 +81,7 @@ ORDERS = [('a', 'b'), ('b', 'a')]
 
 
 def program(hist: Sequence[str]) -> Dict[str, str]:
-    src = {'p': '', 'a': '', 'b': ''}
+    src = {'p': '', 'a': '', 'b': '', 'r': '', 'r#2': '', 'rp/x': '', 'rp#2/x': ''}
     top = {'p': '', 'a': '', 'b': ''}
     for e in hist:
         for m, s in EVENTS[e]:
@@ -88,7 +90,7 @@ def program(hist: Sequence[str]) -> Dict[str, str]:
                     top[m[:-4]] += s        # text that has to open the module (its docstring)
             else:
                 src[m] += s
-    return {m: top[m] + src[m] for m in src}
+    return {m: top.get(m, '') + src[m] for m in src}
 
 
 def build(src: Dict[str, str], order: Sequence[str]) -> Any:
@@ -97,6 +99,14 @@ def build(src: Dict[str, str], order: Sequence[str]) -> Any:
     b.addModuleString(src['p'], 'p', None, is_package=True)
     for m in order:
         b.addModuleString(src[m], m, 'p')
+    # further roots given after the package; the same name given twice (module, and package with a sub-module)
+    for key in ('r', 'r#2'):
+        if src.get(key):
+            b.addModuleString(src[key], 'r', None)
+    for key in ('rp/x', 'rp#2/x'):
+        if src.get(key):
+            b.addModuleString('', 'rp', None, is_package=True)
+            b.addModuleString(src[key], 'x' if key == 'rp/x' else 'y', 'rp')
     b.buildModules()
     return s
 
